@@ -42,7 +42,27 @@ def run_family(fam, blocks, txs, coverage=False, timeout=3000):
     return res
 
 
+def bridge_mc(tier):
+    """C17: EvmBridge.tla with the code's tagging rule (must hold) and two wrong rules (must be refuted)."""
+    res = vlib.run_tlc(vlib.spec_files("EvmBridge.tla", "MC_EvmBridge.cfg"), "EvmBridge.tla", "MC_EvmBridge.cfg", workers=8, timeout=1800)
+    if vlib.tlc_failed(res) or res.violated:
+        raise vlib.MachineryError("EvmBridge.tla violates its own invariants:\n" + vlib.counterexample(res, 3000))
+    refuted = []
+    for bad in ("MC_EvmBridge_bad1.cfg", "MC_EvmBridge_bad2.cfg"):
+        r = vlib.run_tlc(vlib.spec_files("EvmBridge.tla", bad), "EvmBridge.tla", bad, workers=4, timeout=600)
+        if "NoStaleRead" not in r.violated:
+            raise vlib.MachineryError("sanity: the wrong tagging rule of %s should violate NoStaleRead" % bad)
+        refuted.append(bad)
+    vlib.log("EvmBridge.tla: %d generated / %d distinct states, %.0fs; wrong rules refuted: %s" % (res.generated, res.distinct, res.wall, refuted))
+    return {"states": res.distinct, "transitions": res.generated, "exhaustive": True,
+            "mc_runs": [{"config": "MC_EvmBridge.cfg", "distinct_states": res.distinct, "generated_states": res.generated, "wall_s": round(res.wall, 1)}],
+            "mc_invariant": "NoStaleRead, SyncNotReverted, FailureIsInvisible, WriteBackExact of EvmBridge.tla (3 addresses, nested snapshots/reverts, "
+                            "<= 6 steps per transaction); two wrong tagging rules are refuted by TLC"}
+
+
 def for_prop(prop):
+    if prop == "C17":
+        return bridge_mc
     fams = PROP_FAMILY.get(prop)
     if not fams:
         return None
